@@ -37,6 +37,7 @@ Section PvalInd.
   Hypothesis HList : forall l, Forall P l -> P (VList l).
   Hypothesis HDict : forall kv, Forall (fun p => P (fst p) /\ P (snd p)) kv -> P (VDict kv).
   Hypothesis HFrozen : forall kv, Forall (fun p => P (fst p) /\ P (snd p)) kv -> P (VFrozen kv).
+  Hypothesis HObj : forall z, P (VObj z).
 
   Fixpoint pval_ind' (v : pval) : P v :=
     let go := fix go (l : list pval) : Forall P l :=
@@ -59,6 +60,7 @@ Section PvalInd.
     | VList l => HList l (go l)
     | VDict kv => HDict kv (gokv kv)
     | VFrozen kv => HFrozen kv (gokv kv)
+    | VObj z => HObj z
     end.
 End PvalInd.
 
@@ -136,7 +138,7 @@ Qed.
 Fixpoint imm (v : pval) : bool :=
   match v with
   | VInt _ | VBytes _ | VStr _ | VNone => true
-  | VByteArray _ | VList _ | VDict _ => false
+  | VByteArray _ | VList _ | VDict _ | VObj _ => false
   | VTuple l => forallb imm l
   | VFrozen kv => forallb (fun p => imm (fst p) && imm (snd p)) kv
   end.
@@ -148,19 +150,20 @@ Fixpoint pre (v : pval) : bool :=
   | VTuple l | VList l => forallb pre l
   | VDict kv => forallb (fun p => imm (fst p) && pre (snd p)) kv
   | VFrozen kv => forallb (fun p => imm (fst p) && imm (snd p)) kv
+  | VObj _ => false      (* constify says nothing about objects it does not know *)
   | _ => true
   end.
 
 Lemma imm_hashable v : imm v = true -> hashable v = true.
 Proof.
-  induction v as [| | | | |l IH|l IH|kv IH|kv IH] using pval_ind'; cbn; try congruence.
+  induction v as [| | | | |l IH|l IH|kv IH|kv IH|] using pval_ind'; cbn; try congruence.
   intros H. rewrite forallb_forall in *. intros x Hx.
   rewrite Forall_forall in IH. apply IH; auto.
 Qed.
 
 Lemma pre_hashable_imm v : pre v = true -> hashable v = true -> imm v = true.
 Proof.
-  induction v as [| | | | |l IH|l IH|kv IH|kv IH] using pval_ind'; cbn; try congruence.
+  induction v as [| | | | |l IH|l IH|kv IH|kv IH|] using pval_ind'; cbn; try congruence.
   intros Hp Hh. rewrite forallb_forall in *. intros x Hx.
   rewrite Forall_forall in IH. apply IH; auto.
 Qed.
@@ -170,7 +173,7 @@ Proof. induction l; cbn; congruence. Qed.
 
 Theorem constify_imm v : pre v = true -> imm (constify v) = true.
 Proof.
-  induction v as [| | | | |l IH|l IH|kv IH|kv IH] using pval_ind'; cbn [constify pre imm]; try congruence.
+  induction v as [| | | | |l IH|l IH|kv IH|kv IH|] using pval_ind'; cbn [constify pre imm]; try congruence.
   - (* tuple *)
     intros Hp. destruct (forallb hashable l) eqn:Eh; cbn [imm].
     + rewrite forallb_forall in *. intros x Hx. apply pre_hashable_imm; auto.
@@ -189,7 +192,7 @@ Proof. induction l as [|a l IH]; cbn; intros H; [reflexivity|]. rewrite H, IH; a
 (* immutable values are returned as they are *)
 Theorem constify_id v : imm v = true -> constify v = v.
 Proof.
-  induction v as [| | | | |l IH|l IH|kv IH|kv IH] using pval_ind'; cbn [constify imm]; try congruence.
+  induction v as [| | | | |l IH|l IH|kv IH|kv IH|] using pval_ind'; cbn [constify imm]; try congruence.
   intros H. assert (Hh : forallb hashable l = true).
   { rewrite forallb_forall in *. intros x Hx. apply imm_hashable; auto. }
   rewrite Hh. reflexivity.
@@ -197,3 +200,9 @@ Qed.
 
 Corollary constify_idempotent v : pre v = true -> constify (constify v) = constify v.
 Proof. intros H. apply constify_id, constify_imm, H. Qed.
+
+(* constify passes objects it does not know through unchanged: a tuple of mutable objects
+   (the options of an OPT record are dns.edns.Option objects) stays a tuple of mutable objects *)
+Theorem constify_opaque_refuted :
+  exists v, hashable v = true /\ imm (constify v) = false.
+Proof. exists (VTuple [VObj 0]). split; reflexivity. Qed.
